@@ -156,7 +156,20 @@ pub fn engine_context() -> Context {
         c.set_func(&n, engine_handler(n.clone()));
     }
     c.set_variable("v", Value::Number(Decimal::from(100)));
+    for (k, v) in extra_vars() {
+        c.set_variable(k, v);
+    }
     c
+}
+
+fn extra_vars() -> Vec<(&'static str, Value)> {
+    vec![
+        ("sv", Value::String("text".into())),
+        ("lv", Value::List(vec![Value::Number(Decimal::from(1)), Value::String("b".into())])),
+        ("mv", Value::Map(vec![(Value::Number(Decimal::from(1)), Value::Bool(true))])),
+        ("nv", Value::Number(Decimal::new(250, 2))),
+        ("bv", Value::Bool(true)),
+    ]
 }
 
 pub fn model_context() -> MCtx {
@@ -165,6 +178,9 @@ pub fn model_context() -> MCtx {
         c.insert(n.clone(), MBind::Func(model_handler(n.clone())));
     }
     c.insert("v".into(), MBind::Var(Value::Number(Decimal::from(100))));
+    for (k, v) in extra_vars() {
+        c.insert(k.into(), MBind::Var(v));
+    }
     c
 }
 
@@ -195,7 +211,7 @@ pub fn kinds() -> Vec<Kind> {
 }
 
 /// leaf styles: how placeholder leaves are replaced
-pub const STYLES: &[&str] = &["calls", "bare", "mixed-true", "mixed-false", "repeat", "literal"];
+pub const STYLES: &[&str] = &["calls", "bare", "mixed-true", "mixed-false", "repeat", "literal", "repeat-bare", "variables"];
 
 fn relabel_effects(t: &Ast, style: &str, next: &mut usize, cond: bool) -> Ast {
     let mut go = |x: &Ast, next: &mut usize, cond: bool| relabel_effects(x, style, next, cond);
@@ -226,6 +242,13 @@ fn relabel_effects(t: &Ast, style: &str, next: &mut usize, cond: bool) -> Ast {
                 // (an expression a "constant folder" or a result cache would call constant)
                 ("literal", true) => Ast::Bool(i % 2 == 1),
                 ("literal", false) => Ast::Num(Decimal::from(i as i64)),
+                // the same BARE name everywhere (both operands of an operator are the same reference)
+                ("repeat-bare", true) => Ast::Ref("t1".into()),
+                ("repeat-bare", false) => Ast::Ref("q1".into()),
+                // plain variables of every value kind (assignment targets that hold a list, a
+                // string, a map: what a failing handler must leave in place)
+                ("variables", true) => Ast::Ref("bv".into()),
+                ("variables", false) => Ast::Ref(["sv", "lv", "v", "mv", "nv"][i % 5].into()),
                 ("repeat", true) => call("t"),
                 ("repeat", false) => Ast::Func("p1".into(), vec![]),
                 ("calls", _) => call("p"),
